@@ -2,6 +2,7 @@ import Mc.Drv.Merge
 import Mc.Drv.Apply
 import Mc.Drv.SyncHandle
 import Mc.Drv.HookCalls
+import Mc.Drv.Rounds
 open Mc Mc.Drv
 
 def dispatch (c : J) : Res :=
@@ -10,6 +11,7 @@ def dispatch (c : J) : Res :=
   | "apply" => handleApply c
   | "sync" => handleSync c
   | "hookcalls" => handleHookCalls c
+  | "rounds" => handleRounds c
   | k => { agree := false, where_ := s!"unknown kind {k}" }
 
 partial def loop (h : IO.FS.Stream) (out : IO.FS.Stream) : IO Unit := do
